@@ -1,45 +1,141 @@
-//! scratch measurement (to be replaced)
-use verif_harness::d3gen::*;
-use std::time::Instant;
-use rust_dsymbols::delaney3d::pseudo_toroidal_cover;
+//! C15 — toroidal and pseudo-toroidal covers are branch-free tori.
+//!
+//! Drives the public `delaney2d::toroidal_cover` and `delaney3d::pseudo_toroidal_cover`.
+//!
+//!   tor2        IN sym                          OUT cover | PANIC
+//!   ptc         IN sym                          OUT 0 | 1 cover | PANIC          (model compared)
+//!   ptc_corpus  IN sym                          OUT as ptc; Spec also demands a cover
+//!   ptc_nomodel IN sym                          OUT as ptc; Spec only (variants of sampled symbols)
+//!   ptcinv      IN k sym ren_1 … ren_k dual     OUT one integer per variant: -2 panic, -1 None,
+//!                                                else the size of the returned cover
+//!
+//! Universes (all built by `d3gen`, never by the library's generators or predicates):
+//! every euclidean 2D symbol over every isomorphism class of connected D-sets (all labelled
+//! D-sets for n ≤ 3) with v ≤ 6; every 3D symbol with v ∈ {1,2,3,4,6} and spherical tiles and
+//! vertex figures over every isomorphism class of connected D-sets; the corpus.
+//! Sizes: see `main` and conf/C15.json.
 use rust_dsymbols::delaney2d::toroidal_cover;
+use rust_dsymbols::delaney3d::pseudo_toroidal_cover;
 use rust_dsymbols::dsets::DSet;
-use rust_dsymbols::euclidicity::{is_euclidean, Euclidean};
+use std::panic::{catch_unwind, AssertUnwindSafe};
+use verif_harness::d3gen::{classes, corpus, euclidean_2d, is_oriented, labelled, symbols_3d};
+use verif_harness::dsgen::{random_perm1, Tab};
+use verif_harness::{Ctx, Rng};
+
+fn tor2(ctx: &mut Ctx, s: &Tab, extra: &str) {
+    let nontrivial = !is_oriented(s) || (0..2).any(|i| (1..=s.size).any(|d| s.v[i][d] > 1));
+    let tag = format!("{}dim=2 size={} {}", if nontrivial { "nt " } else { "" }, s.size, extra);
+    ctx.case("tor2", &tag, || s.enc(), || Tab::from_dsym(&toroidal_cover(&s.to_partial_dsym())).enc());
+}
+
+fn ptc_answer(s: &Tab) -> Option<Tab> {
+    pseudo_toroidal_cover(&s.to_partial_dsym()).map(|c| Tab::from_dsym(&c))
+}
+
+fn ptc(ctx: &mut Ctx, op: &str, s: &Tab, extra: &str) {
+    if !ctx.peek_mine() {
+        ctx.skip();
+        return;
+    }
+    // tag needs the answer: computed once here (panics caught), again inside the case
+    let found = catch_unwind(AssertUnwindSafe(|| pseudo_toroidal_cover(&s.to_partial_dsym()).map(|c| c.size())));
+    let tag = match &found {
+        Ok(Some(n)) => format!("nt dim=3 size={} found=1 sheets={} {}", s.size, n / s.size, extra),
+        Ok(None) => format!("dim=3 size={} found=0 {}", s.size, extra),
+        Err(_) => format!("nt dim=3 size={} found=panic {}", s.size, extra),
+    };
+    ctx.case(op, &tag, || s.enc(), || match ptc_answer(s) {
+        Some(c) => format!("1 {}", c.enc()),
+        None => "0".to_string(),
+    });
+}
+
+fn variants(s: &Tab, rng: &mut Rng, k: usize) -> Vec<Tab> {
+    let mut vs = vec![s.clone()];
+    for _ in 0..k {
+        vs.push(s.renumbered(&random_perm1(rng, s.size)));
+    }
+    vs.push(s.dual());
+    vs
+}
+
+fn ptcinv(ctx: &mut Ctx, vs: &[Tab], extra: &str) {
+    let k = vs.len() - 2;
+    let tag = format!("nt dim=3 size={} variants={} {}", vs[0].size, vs.len(), extra);
+    ctx.case(
+        "ptcinv",
+        &tag,
+        || format!("{} {}", k, vs.iter().map(|t| t.enc()).collect::<Vec<_>>().join(" ")),
+        || {
+            vs.iter()
+                .map(|t| match catch_unwind(AssertUnwindSafe(|| ptc_answer(t))) {
+                    Ok(Some(c)) => c.size as i64,
+                    Ok(None) => -1,
+                    Err(_) => -2,
+                })
+                .map(|x| x.to_string())
+                .collect::<Vec<_>>()
+                .join(" ")
+        },
+    );
+}
+
 fn main() {
-    let t0 = Instant::now();
-    for n in 1..=7 {
-        let cl = if n <= 3 { labelled(2, n) } else { classes(2, n) };
-        let mut cnt = 0; let mut maxsz=0;
-        for t in &cl { for s in euclidean_2d(t, 6) { cnt += 1; let c = toroidal_cover(&s.to_partial_dsym()); maxsz = maxsz.max(c.size()); } }
-        eprintln!("2D n={} sets={} euclid={} maxcover={} t={:?}", n, cl.len(), cnt, maxsz, t0.elapsed());
+    let mut ctx = Ctx::from_args();
+    let th = ctx.thorough();
+    let mut rng = ctx.rng(15);
+
+    // (1) the known-euclidean corpus: a cover must be found; invariance with 3 renumberings
+    for s in corpus() {
+        ptc(&mut ctx, "ptc_corpus", &s, "corpus");
+        let vs = variants(&s, &mut rng, 3);
+        ptcinv(&mut ctx, &vs, "corpus");
+        if th {
+            for v in &vs[1..] {
+                ptc(&mut ctx, "ptc_nomodel", v, "corpus-variant");
+            }
+        }
     }
-    for n in 1..=4 {
-        let ls = labelled(3, n);
-        let cs = classes(3, n);
-        let mut cnt = 0; let mut ccnt = 0;
-        let mut some = 0; let mut maxsz = 0;
-        let mut yes=0; let mut no=0; let mut maybe=0;
-        for t in &ls { cnt += symbols_3d(t).len(); }
-        let t1 = Instant::now();
-        for t in &cs { for s in symbols_3d(t) { ccnt += 1;
-            let ds = s.to_partial_dsym();
-            if let Some(c) = pseudo_toroidal_cover(&ds) { some += 1; maxsz = maxsz.max(c.size()); }
-        } }
-        let t2 = Instant::now();
-        for t in &cs { for s in symbols_3d(t) {
-            let ds = s.to_partial_dsym();
-            match is_euclidean(&ds) { Euclidean::Yes => yes+=1, Euclidean::No(_) => no+=1, Euclidean::Maybe(..) => maybe+=1 }
-        } }
-        eprintln!("3D n={} labelled sets={} syms={} classes={} syms={} some={} maxcover={} ptc-time={:?} euc: y{} n{} m{} time={:?}", n, ls.len(), cnt, cs.len(), ccnt, some, maxsz, t2-t1, yes,no,maybe, t2.elapsed());
+
+    // (2) 2D: every euclidean symbol with v ≤ 6
+    let n2 = if th { 8 } else { 6 };
+    for n in 1..=n2 {
+        let sets = if n <= 3 { labelled(2, n) } else { classes(2, n) };
+        for t in &sets {
+            for s in euclidean_2d(t, 6) {
+                tor2(&mut ctx, &s, "");
+            }
+        }
     }
-    let c = corpus();
-    eprintln!("corpus {}", c.len());
-    for s in &c {
-        let ds = s.to_partial_dsym();
-        let t1 = Instant::now();
-        let r = pseudo_toroidal_cover(&ds).map(|c| c.size());
-        let t2 = Instant::now();
-        let e = match is_euclidean(&ds) { Euclidean::Yes => "yes".to_string(), Euclidean::No(s) => s, Euclidean::Maybe(s,_) => s };
-        eprintln!("  size {} ptc {:?} {:?} euc {} {:?} locsph={}", s.size, r, t2-t1, e, t2.elapsed(), locally_spherical(s));
+
+    // (3) 3D: every symbol with spherical tiles and vertex figures, v ∈ {1,2,3,4,6}:
+    //     exhaustive for n ≤ 3 (quick) / n ≤ 4 (thorough); beyond, every `stride`-th symbol of
+    //     the next size (seeded offset): n = 4 stride 6 (quick), n = 5 stride 3 (thorough)
+    let nfull = if th { 4 } else { 3 };
+    let nren = if th { 3 } else { 1 };
+    let stride = if th { 3 } else { 6 };
+    let offset = rng.below(stride);
+    let mut serial = 0usize;
+    for n in 1..=nfull + 1 {
+        for t in &classes(3, n) {
+            for s in symbols_3d(t) {
+                serial += 1;
+                let sampled = n <= nfull || serial % stride == offset;
+                if !sampled {
+                    continue;
+                }
+                let extra = if n <= nfull { "exhaustive" } else { "sampled" };
+                ptc(&mut ctx, "ptc", &s, extra);
+                let vs = variants(&s, &mut rng, nren);
+                ptcinv(&mut ctx, &vs, extra);
+                if th && n <= 3 {
+                    // every variant is an input in its own right
+                    for v in &vs[1..] {
+                        ptc(&mut ctx, "ptc_nomodel", v, "variant");
+                    }
+                }
+            }
+        }
     }
+    ctx.finish();
 }
